@@ -92,31 +92,25 @@ def atomicBase? : SType → Option B
   | .list _ _ => none
   | .union _ _ => none
 
-theorem rootType_atomic : ∀ {t : SType} {b : B}, atomicBase? t = some b →
-    t.rootType = .builtin b.primitive
-  | .builtin b', b, h => by simp [atomicBase?] at h; subst h; rfl
+theorem iterValues_atomic : ∀ {t : SType} {b : B}, atomicBase? t = some b → SType.iterValues 1 t = [b]
+  | .builtin b', b, h => by simp [atomicBase?] at h; subst h; simp [SType.iterValues]
   | .restr n base f, b, h => by
-    simp only [atomicBase?] at h; simp only [SType.rootType]; exact rootType_atomic h
+    simp only [atomicBase?] at h; simp only [SType.iterValues]; exact iterValues_atomic h
   | .list n i, b, h => by simp [atomicBase?] at h
   | .union n ms, b, h => by simp [atomicBase?] at h
 
-/-- prototypes of an atomic type: its own class when it is a builtin, otherwise the class of its
-primitive root type -/
-theorem protos_atomic {t : SType} {b : B} (h : atomicBase? t = some b) :
-    t.protos = [b] ∨ t.protos = [b.primitive] := by
+/-- prototypes of an atomic type (fix F20c): the class of its nearest builtin -/
+theorem protos_atomic {t : SType} {b : B} (h : atomicBase? t = some b) : t.protos = [b] := by
   cases t with
-  | builtin b' => simp [atomicBase?] at h; subst h; exact Or.inl rfl
-  | restr n base f =>
-    right
-    simp only [SType.protos, rootType_atomic h, SType.iterValues]
-    rfl
+  | builtin b' => simp [atomicBase?] at h; subst h; rfl
+  | restr n base f => simp only [SType.protos]; exact iterValues_atomic h
   | list n i => simp [atomicBase?] at h
   | union n ms => simp [atomicBase?] at h
 
 theorem protos_list_atomic {n : Option String} {item : SType} {b : B} (h : atomicBase? item = some b) :
-    (SType.list n item).protos = [b.primitive] := by
-  simp only [SType.protos, SType.rootType, rootType_atomic h, SType.iterValues]
-  rfl
+    (SType.list n item).protos = [b] := by
+  simp only [SType.protos, SType.iterValues, beq_self_eq_true, if_true]
+  exact iterValues_atomic h
 
 theorem nearestB_atomic : ∀ {t : SType} {b : B}, atomicBase? t = some b → nearestB t = b
   | .builtin b', b, h => by simp [atomicBase?] at h; subst h; rfl
